@@ -37,6 +37,7 @@ COLS = {"q2": 0, "p2": 1, "q3": 2, "p3": 3}          # column of a name in a 4-D
 CONJ = {"q2": "p2", "p2": "q2", "q3": "p3", "p3": "q3"}
 SECTIONS = ("q3", "p3", "q2", "p2")
 STRATEGIES = ("axis_aligned", "single", "level_sets", "radial", "random")
+PLANE = {"q3": ("q2", "p2"), "p3": ("q2", "p2"), "q2": ("q3", "p3"), "p2": ("q3", "p3")}   # the two coordinates left free
 
 
 # ====================================================================== independent reduced Hamiltonian
@@ -316,8 +317,9 @@ def compute_map(env: Env, cfg: Cfg, rec: Recorder) -> Obs:
     from hiten.algorithms.types.options import IntegrationOptions, WorkerOptions
     cm, pm = env.fresh_map(cfg.energy)
     if cfg.explicit_config:
-        pm.config = CenterManifoldMapConfig(seed_strategy=cfg.strategy, seed_axis=cfg.seed_axis if cfg.strategy == "single" else None,
-                                            section_coord=cfg.section, integration=IntegrationConfig(method=cfg.method))
+        axis = (cfg.seed_axis or PLANE[cfg.section][0]) if cfg.strategy == "single" else None
+        pm.config = CenterManifoldMapConfig(seed_strategy=cfg.strategy, seed_axis=axis, section_coord=cfg.section,
+                                            integration=IntegrationConfig(method=cfg.method))
     opts = CenterManifoldMapOptions(
         integration=IntegrationOptions(dt=cfg.dt, order=cfg.order, max_steps=cfg.max_steps, c_omega_heuristic=20.0),
         iteration=IterationOptions(n_iter=cfg.n_iter), seeding=SeedingOptions(n_seeds=cfg.n_seeds),
@@ -381,3 +383,625 @@ def pairs_of(records):
         for i in np.nonzero(r.flags == 0)[0]:
             failed.append((r.seeds[i], r.iteration, r))
     return ok, failed
+
+
+# ====================================================================== tolerances (calibrated on the real code, see report)
+# Energy: measured max of |H - h0| / (iteration index + 1) at dt = 0.01 over energies, strategies, RK orders and both points
+# (L1 h<=1.3, L2 h<=1.0): q3 1.4e-7, p3 5.7e-7, q2 5.0e-7, p2 3.4e-6.  The error comes from zeroing the section coordinate of
+# the Hermite point taken at the *linear* crossing fraction (residual ~ f'' dt^2 / 8), so it scales like dt^2 (p2) .. dt^4 (q3):
+# envelope max(r^2, r^4), r = dt / 0.01 (measured 0.02 -> 0.01 ratios 3.9 .. 14, 0.01 -> 0.005 ratios 3 .. 8).  Margin 10.
+K_E_RK = {"q3": 3.0e-7, "p3": 6.0e-7, "q2": 6.0e-7, "p2": 4.0e-6}
+H_REF = {"L1": 1.0, "L2": 0.6}
+# Symplectic (Tao extended phase space, omega = (c dt)^-order): measured per-iteration energy error / state error at h_ref.
+K_E_SYMP = {4: {0.02: 5.0e-3, 0.01: 1.0e-3, 0.005: 1.0e-4}, 6: {0.02: 1.2e-2, 0.01: 2.5e-3, 0.005: 2.6e-3}}
+K_S_SYMP = {4: {0.02: 5.6e-3, 0.01: 1.3e-3, 0.005: 4.5e-4}, 6: {0.02: 1.2e-2, 0.01: 2.2e-3, 0.005: 1.6e-3}}
+MARGIN = 10.0
+STATE_MARGIN_RK = 8.0          # on the conditioning bound speed * dt^2 * max|f''| / (8 |f'|); measured ratio <= 1.00
+SHRINK = 0.75                  # E(dt/2) <= SHRINK * E(dt) inside the conclusive window; measured ratios 0.07 .. 0.44 (RK)
+SHRINK_FLOOR = 1e-9
+MECH_SYMP_STALL = "symplectic-tao-omega-heuristic-energy-error-does-not-shrink-with-dt"
+
+
+def _hfac(point, h, expo):
+    return min(1.0, float(h) / H_REF.get(point, 0.6)) ** expo
+
+
+def _symp_table(tab, order, dt):
+    t = tab.get(int(order))
+    if t is None:
+        return None
+    ks = sorted(t)
+    # piecewise constant from above: never tighter than the nearest calibrated step size >= dt
+    for k in ks:
+        if dt <= k * (1 + 1e-9):
+            return t[k] if abs(dt - k) <= 1e-9 * k else max(t[k], t[ks[max(0, ks.index(k) - 1)]])
+    return None
+
+
+def tol_energy(point, section, method, order, dt, h, k):
+    """Tolerance on |H_cm - h0| of a state of iterate k (0 based); None if the scheme/step is not calibrated."""
+    r = dt / 0.01
+    if method == "fixed":
+        if order not in (4, 6, 8) or not (0.004 <= dt <= 0.021):
+            return None
+        return MARGIN * (k + 1) * K_E_RK[section] * _hfac(point, h, 1.25) * max(r ** 2, r ** 4) + 1e-11
+    K = _symp_table(K_E_SYMP, order, dt)
+    return None if K is None else MARGIN * (k + 1) * K * _hfac(point, h, 1.0)
+
+
+def tol_state(point, method, order, dt, h, c: Crossing):
+    r = dt / 0.01
+    if method == "fixed":
+        if order not in (4, 6, 8) or not (0.004 <= dt <= 0.021):
+            return None
+        bound = c.speed * dt ** 2 * c.fpp / (8.0 * max(abs(c.slope), 1e-300))
+        return STATE_MARGIN_RK * bound + 5e-7 * r ** 4 + 1e-10
+    K = _symp_table(K_S_SYMP, order, dt)
+    return None if K is None else MARGIN * K * _hfac(point, h, 1.0)
+
+
+def direction_margin(point, method, order, dt, h):
+    """Uncertainty of the library's direction value at its step end (global error of its trajectory)."""
+    r = dt / 0.01
+    if method == "fixed":
+        return max(1e-6, 1e-5 * r ** 4)
+    K = _symp_table(K_S_SYMP, order, dt)
+    return 1e-2 if K is None else max(1e-6, MARGIN * K * _hfac(point, h, 1.0))
+
+
+# ====================================================================== per-map checks
+def _cfg_key(cfg):
+    return [cfg.physics_key(), cfg.n_workers, cfg.nthreads, cfg.sleep]
+
+
+def f11_classifier(section, labels, points, states):
+    """points are state columns (q2, p2) although labels name (q3, p3) -- sections q2 / p2 only."""
+    if section not in ("q2", "p2") or tuple(labels) != ("q3", "p3") or len(states) == 0:
+        return False
+    if points.shape != (len(states), 2):
+        return False
+    return bool(np.array_equal(points, states[:, [COLS["q2"], COLS["p2"]]]) and not np.array_equal(points, states[:, [COLS["q3"], COLS["p3"]]]))
+
+
+def check_structure(ctx, env, obs):
+    """Clause 1 and the predecessor/successor bookkeeping of clause 3.  Returns (ok_pairs, failed_seeds) or None."""
+    cfg, sec = obs.cfg, obs.cfg.section
+    if obs.error is not None:
+        ctx.case("map:refused", _cfg_key(cfg), nontrivial=False)
+        ctx.skip("compute() refused: " + obs.error.split(":")[0])
+        return None
+    ctx.count("back-end invocations", len(obs.records))
+    if not obs.records:
+        ctx.case("map:no-backend-call", _cfg_key(cfg), nontrivial=False)
+        ctx.mark_inconclusive("compute() returned without any back-end invocation (memoised result?)")
+        return None
+    ok, failed = pairs_of(obs.records)
+    ctx.case(f"map:{cfg.point}/{cfg.degree}:{sec}:{cfg.scheme()}", _cfg_key(cfg), nontrivial=len(ok) >= 4)
+    ctx.count("predecessor->successor pairs recorded", len(ok))
+    ctx.count("seeds reported as not returning", len(failed))
+    S, P, T, labels = obs.states, obs.points, obs.times, obs.labels
+    base = {"config": asdict(cfg)}
+    idx = COLS[sec]
+    shape_ok = S.ndim == 2 and S.shape[1] == 4
+    ctx.check(shape_ok and bool(np.all(S[:, idx] == 0.0)), "1:section coordinate of every returned state is exactly 0",
+              lambda: {**base, "n": len(S), "max_abs_section_coordinate": float(np.abs(S[:, idx]).max()) if shape_ok and len(S) else None})
+    if not shape_ok:
+        return None
+    ctx.count("1:states on section", len(S))
+    if len(S) and labels is not None and all(l in COLS for l in labels) and len(labels) == 2:
+        expect = S[:, [COLS[labels[0]], COLS[labels[1]]]]
+        good = P.shape == expect.shape and bool(np.array_equal(P, expect))
+        mech = None
+        if not good and f11_classifier(sec, labels, P, S):
+            mech = MECH_F11
+        ctx.check(good, "1:points are the columns of states named by labels",
+                  lambda: {**base, "labels": labels, "points_head": P[:3], "states_head": S[:3], "expected_points_head": expect[:3],
+                           "points_equal_state_columns_q2_p2": bool(P.shape == (len(S), 2) and np.array_equal(P, S[:, [0, 1]]))}, mech)
+    elif len(S):
+        ctx.check(False, "1:labels name two centre-manifold coordinates", {**base, "labels": labels})
+    # ---- returned rows are exactly the back-end successors (each once, with its time)
+    enf = [enforce(r.states, sec) for r in obs.records]
+    allS = np.vstack(enf) if enf else np.empty((0, 4))
+    allT = np.concatenate([r.times for r in obs.records]) if obs.records else np.empty(0)
+    if T is not None and len(T) == len(S) and len(allT) == len(allS):
+        same = same_multiset(np.column_stack([S, T]), np.column_stack([allS, allT]))
+    else:
+        same = same_multiset(S, allS) and (T is None or len(T) == len(S))
+    ctx.check(same, "3:returned states are exactly the successors produced by the back end (each once, with its time)",
+              lambda: {**base, "returned_rows": len(S), "backend_rows": len(allS), "calls": len(obs.records),
+                       "rows_per_call": [len(r.states) for r in obs.records][:40]})
+    # ---- feedback chain
+    by_it = {}
+    for r, e in zip(obs.records, enf):
+        by_it.setdefault(r.iteration, []).append((r, e))
+    for r in obs.records:
+        if r.iteration is None or r.iteration == 0:
+            continue
+        prev = by_it.get(r.iteration - 1, [])
+        fed = any(e.shape == r.seeds.shape and np.array_equal(e, r.seeds) for _, e in prev)
+        ctx.check(fed, "3:predecessors of iterate k>=1 are the returned states of iterate k-1 (seeds fed back, on section)",
+                  lambda: {**base, "iteration": r.iteration, "seeds_head": r.seeds[:2],
+                           "previous_outputs_head": [e[:2] for _, e in prev[:3]],
+                           "seed_section_coordinate_max": float(np.abs(r.seeds[:, idx]).max()) if len(r.seeds) else None})
+    seeds0 = [r.seeds for r in obs.records if r.iteration in (0, None)]
+    if seeds0:
+        s0 = np.vstack(seeds0)
+        ctx.stat("seed |H - h0|", float(np.abs(env.red.energies(s0) - cfg.energy).max()) if len(s0) else 0.0)
+        ctx.stat("seed |section coordinate|", float(np.abs(s0[:, idx]).max()) if len(s0) else 0.0)
+    return ok, failed
+
+
+def check_energy(ctx, env, obs, ok):
+    cfg, sec = obs.cfg, obs.cfg.section
+    worst = (0.0, None)
+    n = 0
+    emax = 0.0
+    for (pred, raw, tl, it, r) in ok:
+        tol = tol_energy(cfg.point, sec, r.method, r.order, r.dt, cfg.energy, it or 0)
+        if tol is None:
+            ctx.skip("energy tolerance not calibrated for this scheme/step")
+            return None
+        e = abs(env.red.energy(enforce(raw[None], sec)[0]) - cfg.energy)
+        emax = max(emax, e)
+        n += 1
+        if e / tol > worst[0]:
+            worst = (e / tol, {"iteration": it, "state": enforce(raw[None], sec)[0], "H_minus_h0": e, "tolerance": tol})
+    if n == 0:
+        return None
+    ctx.count("2:states evaluated", n)
+    fam = "rk" if cfg.method == "fixed" else "symplectic"
+    ctx.stat(f"|H-h0|/tolerance [{fam}]", worst[0])
+    ctx.stat(f"|H-h0| [{cfg.scheme()} dt={cfg.dt:g} {sec}]", emax)
+    ctx.check(worst[0] <= 1.0, "2:|H_cm(state) - h0| within the calibrated integration accuracy K_E dt^p of the scheme",
+              lambda: {"config": asdict(cfg), "worst": worst[1], "max_abs_error": emax})
+    return emax
+
+
+def _definitely_admissible(c, crossings, dt, m, t_end):
+    if not (c.gmin > m and c.t > 2.0 * dt and abs(c.slope) >= 1e-2 and c.t + 2.0 * dt <= t_end):
+        return False
+    return not any(o is not c and abs(o.t - c.t) <= 2.0 * dt for o in crossings)
+
+
+def check_pair(ctx, env, cfg, pred, raw, t_lib, r):
+    """Clause 3 for one predecessor -> successor pair."""
+    red, sec = env.red, cfg.section
+    dt = r.dt
+    xe = enforce(raw[None], sec)[0]
+    T_all = r.max_steps * dt
+    T1 = (t_lib if np.isfinite(t_lib) and t_lib > 0 else 2.0 * np.pi / min(red.omega)) + 2.5 * dt
+    horizons = [min(T1, T_all + 2.5 * dt)]
+    if horizons[0] < T_all:
+        horizons.append(min(T_all + 2.5 * dt, max(2.0 * T1, 15.0)))
+    match = None
+    for T in horizons:
+        crossings, _ = reference_crossings(red, sec, pred, T, dt)
+        best = None
+        for j, c in enumerate(crossings):
+            tol = tol_state(cfg.point, r.method, r.order, dt, cfg.energy, c)
+            if tol is None:
+                ctx.skip("state tolerance not calibrated for this scheme/step")
+                return
+            d = float(np.abs(c.x - xe).max())
+            if best is None or d / tol < best[0]:
+                best = (d / tol, j, d, tol)
+        if best is not None and best[0] <= 1.0:
+            match = (T, crossings, best)
+            break
+    fam = "rk" if r.method == "fixed" else "symplectic"
+
+    def wit(**kw):
+        return {"config": asdict(cfg), "iteration": r.iteration, "predecessor": pred, "successor_raw": raw, "successor_time": t_lib,
+                "reference_crossings": [{"t": c.t, "x": c.x, "slope": c.slope, "g_range": [c.gmin, c.gmax]} for c in crossings[:8]], **kw}
+    ctx.check(match is not None, "3:successor coincides with a zero crossing of the section coordinate on the reduced flow from its predecessor",
+              lambda: wit(best_error_over_tolerance=None if best is None else best[0], best_error=None if best is None else best[2],
+                          tolerance=None if best is None else best[3]))
+    if match is None:
+        return
+    T, crossings, (ratio, j, d, tol) = match
+    c = crossings[j]
+    ctx.stat(f"state error / tolerance [{fam}]", ratio)
+    if r.method == "fixed":
+        ctx.stat("state error / conditioning bound [rk]", d / max(c.speed * dt ** 2 * c.fpp / (8.0 * abs(c.slope)), 1e-300))
+    ctx.stat(f"state error [{cfg.scheme()} dt={dt:g}]", d)
+    ctx.stat(f"|t_lib - t_cross| [{fam}]", abs(t_lib - c.t))
+    ctx.stat("raw section residual before enforcement", abs(raw[COLS[sec]]))
+    m = direction_margin(cfg.point, r.method, r.order, dt, cfg.energy)
+    status = "admissible" if c.gmin > m else ("inadmissible" if c.gmax < -m else "ambiguous")
+    ctx.count(f"3:accepted crossing is {status} [{'q' if sec[0] == 'q' else 'p'}-section]")
+    ctx.check(not (c.gmax < -m), "3:accepted crossing is not definitely inadmissible in the documented direction",
+              lambda: wit(accepted_index=j, g_range=[c.gmin, c.gmax], margin=m))
+    earlier = [k for k, o in enumerate(crossings[:j]) if _definitely_admissible(o, crossings, dt, m, T)]
+    ctx.check(not earlier, "3:no earlier crossing is definitely admissible (first return)",
+              lambda: wit(accepted_index=j, earlier_admissible=earlier, margin=m))
+    if earlier == [] and j > 0:
+        ctx.count("3:earlier crossings skipped legitimately", j)
+
+
+def check_failed_seed(ctx, env, cfg, seed, r):
+    red, sec = env.red, cfg.section
+    dt = r.dt
+    T = r.max_steps * dt
+    crossings, _ = reference_crossings(red, sec, seed, T, dt, grid=min(dt / 2.0, 5e-3))
+    m = direction_margin(cfg.point, r.method, r.order, dt, cfg.energy)
+    adm = [k for k, o in enumerate(crossings) if _definitely_admissible(o, crossings, dt, m, T - 2.0 * dt)]
+    ctx.check(not adm, "3:a seed reported as not returning has no definitely admissible crossing within max_steps*dt",
+              lambda: {"config": asdict(cfg), "seed": seed, "horizon": T, "definitely_admissible": adm[:4],
+                       "crossings": [{"t": c.t, "g_range": [c.gmin, c.gmax], "slope": c.slope} for c in crossings[:10]]})
+
+
+def check_map(ctx, env, obs, n_ref=8, n_failed=2):
+    cfg = obs.cfg
+    st = check_structure(ctx, env, obs)
+    if st is None:
+        return None
+    ok, failed = st
+    emax = check_energy(ctx, env, obs, ok)
+    if ok and n_ref > 0:
+        # sub-sample, preferring to cover every iterate
+        order = ctx.rng.permutation(len(ok))
+        seen_it, first, rest = set(), [], []
+        for i in order:
+            (first if ok[i][3] not in seen_it else rest).append(i)
+            seen_it.add(ok[i][3])
+        for i in (first + rest)[:n_ref]:
+            pred, raw, tl, it, r = ok[i]
+            check_pair(ctx, env, cfg, pred, raw, tl, r)
+    if failed and n_failed > 0:
+        for i in ctx.rng.permutation(len(failed))[:n_failed]:
+            seed, it, r = failed[i]
+            check_failed_seed(ctx, env, cfg, seed, r)
+    return emax
+
+
+# ====================================================================== workload
+ENERGY_RANGE = {"L1": (0.05, 1.25), "L2": (0.05, 0.75)}
+RK_SCHEMES = (("fixed", 4), ("fixed", 6), ("fixed", 8))
+WORKERS = (1, 2, 3, 5, 8, 16)
+THREADS = (1, 4, 16)
+
+
+def sweep_configs(ctx, points, n, symp_orders, dts, dt_weights, max_iter):
+    """Pseudo-random configurations that cover every section x scheme family, every strategy and every step size."""
+    rng = ctx.rng
+    out = []
+    schemes = list(RK_SCHEMES) + [("symplectic", o) for o in symp_orders]
+    for i in range(n):
+        point, degree = points[i % len(points)]
+        sec = SECTIONS[i % 4]
+        method, order = schemes[(i // 4 + i) % len(schemes)]
+        dt = float(rng.choice(dts, p=dt_weights))
+        if method == "symplectic":
+            dt = float(rng.choice([d for d in dts if d >= (0.01 if ctx.quick else 0.005)]))
+        lo, hi = ENERGY_RANGE[point]
+        h = round(float(lo + (hi - lo) * rng.random() ** 0.8), 3)
+        strat = STRATEGIES[(i + i // 5) % len(STRATEGIES)]
+        n_iter = int(rng.integers(3, max_iter + 1))
+        if method == "symplectic" or dt < 0.01:
+            n_iter = min(n_iter, 4 if ctx.quick else 8)
+        explicit = bool(rng.random() < 0.85) or method != "fixed"
+        out.append(Cfg(point=point, degree=degree, energy=h, section=sec, strategy=strat if explicit else "axis_aligned",
+                       seed_axis=(PLANE[sec][int(rng.integers(2))] if strat == "single" else None), explicit_config=explicit,
+                       method=method, order=order, dt=dt, n_iter=n_iter, n_seeds=int(rng.integers(6, 21)),
+                       n_workers=int(rng.choice(WORKERS)), nthreads=int(rng.choice(THREADS)), sleep=bool(rng.random() < 0.5)))
+    return out
+
+
+def main_sweep(ctx, envs, rec, cfgs, n_ref):
+    for i, cfg in enumerate(cfgs):
+        if not ctx.mine(i):
+            continue
+        env = envs[(cfg.point, cfg.degree)]
+        obs = compute_map(env, cfg, rec)
+        if i < 4 and obs.error is None:
+            ctx.sample({"config": asdict(cfg), "labels": obs.labels, "n_states": len(obs.states), "states_head": obs.states[:2],
+                        "points_head": obs.points[:2], "backend_calls": len(obs.records),
+                        "threads": len({r.thread for r in obs.records}), "numba_threads_seen": sorted({r.nthreads_seen for r in obs.records})})
+        check_map(ctx, env, obs, n_ref=n_ref)
+        n0 = sum(len(r.seeds) for r in obs.records if r.iteration in (0, None))
+        if obs.records and cfg.explicit_config and cfg.strategy in ("single", "axis_aligned", "radial") and n0 != cfg.n_seeds:
+            ctx.count("observation: SeedingOptions.n_seeds not honoured (seed count differs from the option)")
+
+
+def shrink_monitor(ctx, envs, rec, cases, n_ref):
+    """Clause 2b: same map at dt, dt/2(, dt/4): the maximal energy error shrinks inside the conclusive window."""
+    for i, (base, dts) in enumerate(cases):
+        if not ctx.mine(i):
+            continue
+        env = envs[(base.point, base.degree)]
+        errs = []
+        for dt in dts:
+            cfg = base.with_(dt=dt)
+            obs = compute_map(env, cfg, rec)
+            e = check_map(ctx, env, obs, n_ref=n_ref)
+            errs.append((dt, e))
+        for (d1, e1), (d2, e2) in zip(errs[:-1], errs[1:]):
+            if e1 is None or e2 is None:
+                ctx.skip("shrink pair without energy data")
+                continue
+            if e1 < SHRINK_FLOOR:
+                ctx.skip("shrink pair below the conclusive window (error already at the floor)")
+                continue
+            good = e2 <= SHRINK * e1
+            mech = None
+            if not good and base.method == "symplectic":
+                omega_dt = (20.0 * d2) ** (-float(base.order)) * d2
+                if omega_dt > 2.0 * np.pi:
+                    mech = MECH_SYMP_STALL
+            fam = "rk" if base.method == "fixed" else "symplectic"
+            ctx.stat(f"E(dt/2)/E(dt) [{fam}]", e2 / e1)
+            ctx.check(good, f"2:energy error shrinks when dt is halved [{fam}]",
+                      {"config": asdict(base), "dt": [d1, d2], "max_energy_error": [e1, e2], "ratio": e2 / e1,
+                       "omega_dt_at_finer_step": (20.0 * d2) ** (-float(base.order)) * d2 if base.method == "symplectic" else None}, mech)
+
+
+# ====================================================================== clause 4: schedule independence
+def _stack(obs):
+    if obs.times is not None and len(obs.times) == len(obs.states):
+        return np.column_stack([obs.states, obs.times])
+    return obs.states
+
+
+def _multiset_diff(A, B):
+    A, B = _rows_sorted(A), _rows_sorted(B)
+    d = {"rows": [len(A), len(B)]}
+    if A.shape == B.shape and A.size:
+        d["max_abs_difference_after_sorting"] = float(np.abs(A - B).max())
+        bad = np.nonzero(np.any(A != B, axis=1))[0]
+        d["differing_rows"] = int(len(bad))
+        if len(bad):
+            d["first_differing_pair"] = [A[bad[0]], B[bad[0]]]
+    return d
+
+
+def schedule_monitor(ctx, envs, rec, bases, schedules, stats):
+    for bi, base in enumerate(bases):
+        if not ctx.mine(bi):
+            continue
+        env = envs[(base.point, base.degree)]
+        ref = compute_map(env, base.with_(n_workers=1, nthreads=1, sleep=False), rec)
+        st = check_map(ctx, env, ref, n_ref=0)
+        if ref.error is not None or not ref.records or len(ref.states) < 8:
+            ctx.skip("schedule base configuration produced too few states")
+            continue
+        R = _stack(ref)
+        ok_ref, _ = pairs_of(ref.records)
+        Rpairs = np.array([np.concatenate([p, s]) for p, s, *_ in ok_ref])
+        ref_order = hashlib.sha1(np.ascontiguousarray(ref.states).tobytes()).hexdigest()
+        orders = {ref_order}
+        for (nw, nt, sl) in schedules:
+            cfg = base.with_(n_workers=nw, nthreads=nt, sleep=sl)
+            obs = compute_map(env, cfg, rec)
+            check_structure(ctx, env, obs)
+            if obs.error is not None or not obs.records:
+                ctx.check(False, "4:every schedule computes the map that the single-worker run computes",
+                          {"config": asdict(cfg), "error": obs.error, "calls": len(obs.records)})
+                continue
+            O = _stack(obs)
+            ctx.check(same_multiset(O, R), "4:multiset of returned states (with times) is bit-identical to the single-worker single-thread run",
+                      lambda: {"config": asdict(cfg), **_multiset_diff(O, R)})
+            ok_o, _ = pairs_of(obs.records)
+            Opairs = np.array([np.concatenate([p, s]) for p, s, *_ in ok_o])
+            ctx.check(same_multiset(Opairs, Rpairs), "4:multiset of predecessor->successor pairs is bit-identical to the single-worker single-thread run",
+                      lambda: {"config": asdict(cfg), **_multiset_diff(Opairs, Rpairs)})
+            oh = hashlib.sha1(np.ascontiguousarray(obs.states).tobytes()).hexdigest()
+            orders.add(oh)
+            if oh != ref_order:
+                ctx.count("4:schedules whose returned row order differs from the single-worker run")
+            stats["schedules"].add((nw, nt, sl))
+            stats["max_python_threads"] = max(stats["max_python_threads"], len({r.thread for r in obs.records}))
+            stats["numba_threads_seen"].update(r.nthreads_seen for r in obs.records)
+            stats["chunks"].add(sum(1 for r in obs.records if r.iteration == 0))
+        stats["distinct_row_orders"] = max(stats["distinct_row_orders"], len(orders))
+
+
+# ---------------------------------------------------------------------- sub-process (other threading layer)
+def _worker_main(spec_path, out_path):
+    import logging
+    logging.disable(logging.WARNING)
+    with open(spec_path) as f:
+        spec = json.load(f)
+    import numba
+    rng = np.random.default_rng(spec.get("seed", 0))
+    rec = Recorder(rng)
+    rec.install()
+    envs, out = {}, []
+    system = None
+    for d in spec["configs"]:
+        cfg = Cfg(**d)
+        key = (cfg.point, cfg.degree)
+        if key not in envs:
+            envs[key] = Env(cfg.point, cfg.degree, system=system)
+            system = envs[key].system
+        obs = compute_map(envs[key], cfg, rec)
+        out.append({"config": d, "error": obs.error, "rows": None if obs.error else int(len(obs.states)),
+                    "hash": None if obs.error else multiset_hash(_stack(obs)), "calls": len(obs.records),
+                    "numba_threads_seen": sorted({r.nthreads_seen for r in obs.records})})
+    try:
+        layer = numba.threading_layer()
+    except Exception as e:
+        layer = f"unknown ({e})"
+    with open(out_path, "w") as f:
+        json.dump({"layer": layer, "results": out}, f)
+
+
+def layer_monitor(ctx, envs, rec, bases, layer="workqueue", timeout=1500):
+    """Clause 4 across threading layers: the same configurations in a sub-process with NUMBA_THREADING_LAYER=<layer>."""
+    import tempfile
+    cfgs = []
+    for base in bases:
+        for (nw, nt, sl) in ((1, 1, False), (3, 4, True), (16, 16, True)):
+            cfgs.append(base.with_(n_workers=nw, nthreads=nt, sleep=sl))
+    tmp = tempfile.mkdtemp(prefix="hmon_c14_", dir=os.environ.get("HITEN_SCRATCH") or None)
+    spec, outp = os.path.join(tmp, "spec.json"), os.path.join(tmp, "out.json")
+    with open(spec, "w") as f:
+        json.dump({"seed": ctx.seed, "configs": [asdict(c) for c in cfgs]}, f)
+    env = dict(os.environ)
+    env["NUMBA_THREADING_LAYER"] = layer
+    try:
+        cp = subprocess.run([sys.executable, "-X", "faulthandler", "-m", "hmon.monitors.c14", "--worker", spec, outp], env=env,
+                            timeout=timeout, stdout=subprocess.PIPE, stderr=subprocess.PIPE, text=True)
+    except subprocess.TimeoutExpired:
+        raise Inconclusive(f"{layer} sub-process timed out")
+    if cp.returncode != 0 or not os.path.exists(outp):
+        raise Inconclusive(f"{layer} sub-process failed (status {cp.returncode}): {cp.stderr[-400:]}")
+    with open(outp) as f:
+        res = json.load(f)
+    import shutil
+    shutil.rmtree(tmp, ignore_errors=True)
+    if res["layer"] != layer:
+        raise Inconclusive(f"sub-process ran threading layer {res['layer']!r}, not {layer!r}")
+    ctx.count(f"W:sub-process {layer} completed")
+    own = {}
+    for c, r in zip(cfgs, res["results"]):
+        k = json.dumps(c.physics_key(), sort_keys=True)
+        if k not in own:
+            o = compute_map(envs[(c.point, c.degree)], c.with_(n_workers=1, nthreads=1, sleep=False), rec)
+            own[k] = None if o.error else (multiset_hash(_stack(o)), len(o.states))
+        if own[k] is None or r["error"] is not None or not r["calls"]:
+            ctx.skip("layer comparison without data")
+            continue
+        ctx.case(f"layer:{layer}", [asdict(c)], nontrivial=True)
+        ctx.check(r["hash"] == own[k][0], f"4:multiset of returned states bit-identical under the {layer} threading layer (sub-process)",
+                  {"config": asdict(c), "rows": [r["rows"], own[k][1]], "hash": [r["hash"], own[k][0]]})
+
+
+# ====================================================================== oracle self-checks
+def oracle_selfcheck(ctx, env):
+    red = env.red
+    ctx.check(red.hyperbolic_terms == 0 and red.max_imag <= 1e-12,
+              "O:the centre-manifold Hamiltonian is real and independent of (q1, p1) (the reduced flow is the full flow at q1=p1=0)",
+              {"terms_with_q1_p1": red.hyperbolic_terms, "max_imag": red.max_imag})
+    dev = red.selfcheck(ctx.rng, n=8, amp=0.6)
+    ctx.stat("harness: vectorised H / J grad H vs polyutil", dev)
+    if dev > 1e-11:
+        raise Inconclusive(f"harness evaluation of H_cm deviates from polyutil by {dev:.2e}")
+    # the crossing finder on a flow with known returns: harmonic part only
+    quad = ReducedH.__new__(ReducedH)
+    quad.__dict__.update(red.__dict__)
+    keep = red.E.sum(axis=1) == 2
+    quad.E, quad.C, quad.Em1, quad.Ef = red.E[keep], red.C[keep], red.Em1[keep], red.Ef[keep]
+    w2, w3 = 2 * quad.C[np.argmax(quad.E[:, 0] == 2)], 2 * quad.C[np.argmax(quad.E[:, 2] == 2)]
+    x0 = np.array([0.0, 0.3, 0.1, 0.2])
+    cr, _ = reference_crossings(quad, "q2", x0, 2.2 * 2 * np.pi / w2, 0.01)
+    expect = [np.pi / w2 * k for k in (1, 2, 3, 4)]
+    good = len(cr) == 4 and max(abs(c.t - e) for c, e in zip(cr, expect)) < 1e-9 and all((c.gmin > 0) == (k % 2 == 1) for k, c in enumerate(cr))
+    ctx.check(good, "O:crossing finder reproduces the returns of the harmonic part (times k*pi/omega, alternating direction)",
+              {"found": [c.t for c in cr], "expected": expect})
+
+
+# ====================================================================== entry points
+def _build_envs(ctx, points):
+    envs, system = {}, None
+    for (p, d) in points:
+        e = Env(p, d, system=system)
+        system = e.system
+        envs[(p, d)] = e
+        ctx.note(f"build_s[{p}/{d}]", round(e.build_s, 1))
+        guarded(ctx, f"oracle[{p}/{d}]", oracle_selfcheck, ctx, e)
+    return envs
+
+
+def replay(ctx, w):
+    wt = w.get("witness") or {}
+    if "config" not in wt:
+        return run(ctx)
+    import logging
+    logging.disable(logging.WARNING)
+    cfg = Cfg(**wt["config"])
+    envs = _build_envs(ctx, [(cfg.point, cfg.degree)])
+    rec = Recorder(ctx.rng)
+    rec.install()
+    try:
+        obs = compute_map(envs[(cfg.point, cfg.degree)], cfg, rec)
+        guarded(ctx, "replay", check_map, ctx, envs[(cfg.point, cfg.degree)], obs, 20, 4)
+    finally:
+        rec.uninstall()
+
+
+def run(ctx):
+    import numba
+    ctx.note("rule", "case = one CenterManifoldMap.compute on fresh objects (point/degree, energy, section, seeding strategy, scheme, "
+                     "dt, n_iter, n_workers, numba threads, sleep injection); distinct by that tuple; non-trivial = at least 4 "
+                     "predecessor->successor pairs recorded at the back end")
+    ctx.note("assumptions", [
+        "CPython, numpy, scipy and the harness helpers (polyutil.unpack / eval_dict / ham_field) are trusted",
+        "the library's packed coefficient blocks of the centre-manifold Hamiltonian are taken as the definition of H_cm (C07-C09 own their correctness)",
+        "admissibility of a crossing is three valued over [t_c, t_c+dt] (the implementation tests the documented criterion at the step end); "
+        "ambiguous crossings, crossings closer than 2 dt to another one or to the start, and near-tangent crossings are never flagged",
+        "a refusal to compute (exception) and the number/placement of seeds are not decided by the property text",
+        "verdict covers only the executions observed in this run"])
+    q = ctx.quick
+    points = [("L1", 6)] if q else [("L1", 6), ("L2", 6), ("L1", 4)]
+    envs = _build_envs(ctx, points)
+    rec = Recorder(ctx.rng)
+    rec.install()
+    stats = {"schedules": set(), "max_python_threads": 0, "numba_threads_seen": set(), "chunks": set(), "distinct_row_orders": 0}
+    try:
+        if q:
+            cfgs = sweep_configs(ctx, points, 16, symp_orders=(4,), dts=[0.02, 0.01, 0.005], dt_weights=[0.5, 0.4, 0.1], max_iter=6)
+            n_ref = 6
+        else:
+            cfgs = sweep_configs(ctx, points, 120, symp_orders=(4, 6), dts=[0.02, 0.01, 0.005], dt_weights=[0.35, 0.4, 0.25], max_iter=20)
+            n_ref = 14
+        guarded(ctx, "sweep", main_sweep, ctx, envs, rec, cfgs, n_ref)
+
+        b = Cfg(point="L1", degree=6, n_iter=3)
+        if q:
+            shr = [(b.with_(section="q3", strategy="radial", energy=0.7, method="fixed", order=4), (0.02, 0.01, 0.005)),
+                   (b.with_(section="p2", strategy="level_sets", energy=0.4, method="fixed", order=6), (0.02, 0.01)),
+                   (b.with_(section="q2", strategy="axis_aligned", energy=0.5, method="symplectic", order=4, n_iter=2), (0.02, 0.01))]
+        else:
+            shr = []
+            for (p, d) in points:
+                for sec in SECTIONS:
+                    for (m, o) in RK_SCHEMES + (("symplectic", 4), ("symplectic", 6)):
+                        h = {"L1": 0.7, "L2": 0.4}[p]
+                        shr.append((Cfg(point=p, degree=d, section=sec, strategy=STRATEGIES[(len(shr)) % 4], energy=h, method=m, order=o,
+                                        n_iter=3), (0.02, 0.01, 0.005)))
+        guarded(ctx, "shrink", shrink_monitor, ctx, envs, rec, shr, 3 if q else 6)
+
+        if q:
+            bases = [b.with_(section="q3", strategy="level_sets", energy=0.8, method="fixed", order=4, dt=0.02, n_iter=4),
+                     b.with_(section="p2", strategy="radial", energy=0.5, method="fixed", order=8, dt=0.02, n_iter=5)]
+            schedules = [(2, 16, True), (3, 4, False), (5, 16, True), (8, 1, True), (16, 16, False), (16, 4, True), (5, 1, False), (2, 4, True)]
+        else:
+            bases = [Cfg(point=p, degree=d, section=sec, strategy=st, energy=h, method=m, order=o, dt=dt, n_iter=ni)
+                     for (p, d, sec, st, h, m, o, dt, ni) in (
+                         ("L1", 6, "q3", "level_sets", 0.8, "fixed", 4, 0.01, 6), ("L1", 6, "p2", "radial", 0.5, "fixed", 8, 0.02, 8),
+                         ("L1", 6, "q2", "axis_aligned", 1.0, "fixed", 6, 0.02, 5), ("L1", 6, "p3", "single", 0.3, "symplectic", 4, 0.02, 3),
+                         ("L2", 6, "q3", "radial", 0.5, "fixed", 4, 0.02, 5), ("L2", 6, "q2", "level_sets", 0.3, "symplectic", 6, 0.02, 2),
+                         ("L1", 4, "p3", "axis_aligned", 0.6, "fixed", 8, 0.01, 4))]
+            schedules = [(nw, nt, sl) for nw in WORKERS for nt in THREADS for sl in (False, True)]
+        guarded(ctx, "schedules", schedule_monitor, ctx, envs, rec, bases, schedules, stats)
+        if not q and ctx.shard == 0:
+            guarded(ctx, "layer", layer_monitor, ctx, envs, rec, bases[:3])
+            ctx.require("W:sub-process workqueue completed", 1)
+    finally:
+        rec.uninstall()
+    try:
+        layer = numba.threading_layer()
+    except Exception:
+        layer = "unknown"
+    ctx.note("coverage_extra", {"schedules_seen": len(stats["schedules"]), "max_python_threads_in_one_map": stats["max_python_threads"],
+                                "numba_thread_counts_seen_in_workers": sorted(stats["numba_threads_seen"]),
+                                "chunk_counts_seen": sorted(stats["chunks"]), "distinct_row_orders_for_one_map": stats["distinct_row_orders"],
+                                "threading_layer": layer, "NUMBA_NUM_THREADS": int(numba.config.NUMBA_NUM_THREADS)})
+    one = ctx.nshards == 1
+    ctx.require("back-end invocations", 20 if one else 2)
+    ctx.require("1:section coordinate of every returned state is exactly 0", 12 if one else 2)
+    ctx.require("1:points are the columns of states named by labels", 12 if one else 2)
+    ctx.require("2:|H_cm(state) - h0| within the calibrated integration accuracy K_E dt^p of the scheme", 12 if one else 2)
+    ctx.require("3:successor coincides with a zero crossing of the section coordinate on the reduced flow from its predecessor", 60 if one else 5)
+    ctx.require("3:accepted crossing is admissible [q-section]", 10 if one else 1)
+    if one:
+        ctx.require("2:energy error shrinks when dt is halved [rk]", 2)
+        ctx.require("4:multiset of returned states (with times) is bit-identical to the single-worker single-thread run", 12)
+        ctx.require("4:schedules whose returned row order differs from the single-worker run", 2)
+
+
+if __name__ == "__main__":
+    if len(sys.argv) == 4 and sys.argv[1] == "--worker":
+        _worker_main(sys.argv[2], sys.argv[3])
+    else:
+        print("usage: python -m hmon.monitors.c14 --worker SPEC OUT")
